@@ -26,9 +26,10 @@ CONSTANTS Bug_ClauseLoopIgnoresCut,   \* the clause loop of a cut call tries lat
 
 VARIABLES prog, query, nodes, stack, ret, nextId, stop, outbuf, hist, phase, acts, steps,
           fireAt,    \* the query timer fires just before the fireAt-th count_rules() of this request (0: never)
-          crSeen     \* count_rules() calls made during this request
+          crSeen,    \* count_rules() calls made during this request
+          lastAct    \* name of the action taken last (history; used by the trace specification)
 
-svars == <<prog, query, nodes, stack, ret, nextId, stop, outbuf, hist, phase, acts, steps, fireAt, crSeen>>
+svars == <<prog, query, nodes, stack, ret, nextId, stop, outbuf, hist, phase, acts, steps, fireAt, crSeen, lastAct>>
 
 NoneR     == [some |-> FALSE, b |-> <<>>]
 SomeR(b)  == [some |-> TRUE, b |-> b]
@@ -88,6 +89,7 @@ At(kind, pc) == SRunning /\ STop.pc = pc /\ TN.kind = kind
 
 Tick(name) == /\ acts' = acts \cup {name}
               /\ steps' = steps + 1
+              /\ lastAct' = name
 Return(r, name) == /\ stack' = Popped /\ ret' = r /\ Tick(name)
 Same1 == UNCHANGED <<prog, query, nextId, stop, hist, phase, fireAt, crSeen>>
 Same2 == UNCHANGED <<prog, query, nextId, hist, phase, fireAt>>
@@ -282,24 +284,27 @@ BaseNodes(P, q, stopped) ==
 
 (* ---------------- properties of the machine ---------------- *)
 (* C02: a call whose clause body executed a cut resolves no further clause     *)
-CutCommits ==
-    [][\A i \in DOMAIN nodes :
-          (nodes[i].kind = "cx" /\ nodes[i].noBack) => nodes'[i].ruleIdx = nodes[i].ruleIdx]_svars
+CutCommitsStep ==
+    \A i \in DOMAIN nodes :
+          (nodes[i].kind = "cx" /\ nodes[i].noBack) => nodes'[i].ruleIdx = nodes[i].ruleIdx
+CutCommits == [][CutCommitsStep]_svars
 (* C02: goals to the left of a cut are never re-tried: a flagged built-in or    *)
 (* call never runs again, a flagged disjunction never opens a later alternative *)
-NoRetryLeftOfCut ==
-    [][\A i \in DOMAIN nodes :
+NoRetryStep ==
+    \A i \in DOMAIN nodes :
           nodes[i].noBack =>
              /\ nodes'[i].more = nodes[i].more
              /\ nodes'[i].ruleIdx = nodes[i].ruleIdx
-             /\ (nodes[i].kind = "or" => nodes'[i].tail = nodes[i].tail)]_svars
+             /\ (nodes[i].kind = "or" => nodes'[i].tail = nodes[i].tail)
+NoRetryLeftOfCut == [][NoRetryStep]_svars
 (* C02: a cut flags only nodes of its own call: the cut, its ancestors up to    *)
 (* the call's node, and their head nodes                                        *)
-CutIsLocal ==
-    [][\A i \in DOMAIN nodes :
+CutLocalStep ==
+    \A i \in DOMAIN nodes :
           (nodes'[i].noBack /\ ~nodes[i].noBack) =>
              /\ SRunning /\ TN.kind = "bip" /\ TN.goal.f = "!"
-             /\ i \in {STop.n} \cup Chain(nodes, TN.parent)]_svars
+             /\ i \in {STop.n} \cup Chain(nodes, TN.parent)
+CutIsLocal == [][CutLocalStep]_svars
 (* C10: the id counter is above every id in use, so the next ids are fresh      *)
 RECURSIVE IdsOfSeq(_)
 IdsOfSeq(ts) == IF ts = <<>> THEN {} ELSE VarsOf(Head(ts)) \cup IdsOfSeq(Tail(ts))
